@@ -93,13 +93,63 @@ class Ctx:
         self.total_paths = 0
 
     # ---- anchors -----------------------------------------------------
-    def site(self, relpath, suffix) -> Site:
-        """The site whose subscribe function's qualified name ends with *suffix*."""
+    def site(self, relpath, suffix, kind=None, states=None) -> Site:
+        """The construction site anchored by *suffix* = '<factory>.<inner names...>'.
+
+        An exact match of the inner names is not required (inner functions get renamed): the site is
+        identified by the module, the outermost factory function, optionally the constructor kind
+        ('mux' | 'create') and the number of state ids it creates in its Probe branch."""
         self.program.module(relpath)
-        cands = [s for s in self.sites if s.module.relpath == relpath and s.short.endswith(suffix)]
+        in_mod = [s for s in self.sites if s.module.relpath == relpath]
+        cands = [s for s in in_mod if s.short.endswith(suffix)]
         if len(cands) != 1:
-            raise AnalysisError("anchor %s::*%s: %d construction sites found (expected 1)" % (relpath, suffix, len(cands)))
+            factory = suffix.split(".")[0]
+            cands = [s for s in in_mod if s.short.split(".")[0] == factory]
+            if not cands:
+                # anchors given by an inner name only (e.g. route_to_dead_letter.on_subscribe)
+                cands = [s for s in in_mod if factory in s.short.split(".")]
+            if kind is not None:
+                cands = [s for s in cands if (s.ctor != "create") == (kind == "mux")]
+            if states is not None and len(cands) > 1:
+                cands = [s for s in cands if len(self.probe_states(s)) == states]
+        if len(cands) != 1:
+            raise AnalysisError("anchor %s::%s: %d construction sites found (expected 1)" % (relpath, suffix, len(cands)))
         return cands[0]
+
+    def probe_states(self, site):
+        """[(variable name, topo effect)] for the state ids a mux site creates in its Probe branch, in creation order."""
+        key = ("probe", id(site))
+        if key in self._cache:
+            return self._cache[key]
+        out = []
+        for spec in site.handler_specs("on_next"):
+            for kind, cfg, paths in self.all_paths(spec, kinds=("Probe",)):
+                for p in paths:
+                    for e in p.trace:
+                        if e.k == "nonlocal" and e.value[0] == "stateid":
+                            for t in p.trace:
+                                if t.k == "topo" and t.result == e.value and e.name not in [n for n, _ in out]:
+                                    out.append((e.name, t))
+        self._cache[key] = out
+        return out
+
+    def only_state(self, site):
+        st = self.probe_states(site)
+        if len(st) != 1:
+            raise AnalysisError("%s: expected exactly one state id, found %s" % (site.name, [n for n, _ in st]))
+        return st[0][0]
+
+    def free_def_term(self, site, name):
+        """Term assigned to the local *name* of the subscribe function (single assignment), or None."""
+        key = ("freedef", id(site), name)
+        if key not in self._cache:
+            vals = set()
+            for p in self.fn_paths(site.module, site.subscribe_fn, roles=site.roles, inline=False):
+                for e in p.trace:
+                    if e.k == "assign" and e.name == name:
+                        vals.add(e.value)
+            self._cache[key] = next(iter(vals)) if len(vals) == 1 else None
+        return self._cache[key]
 
     def mux_sites(self) -> List[Site]:
         return [s for s in self.sites if s.ctor in ("mux", "muxconn")]
